@@ -93,6 +93,28 @@ def _in_annotation(n: ast.AST) -> bool:
     return False
 
 
+def _is_catalogue_message(e: ast.AST) -> bool:
+    """centralised_messages[<name>]["message"] (structural, not textual)"""
+    return (isinstance(e, ast.Subscript) and isinstance(e.slice, ast.Constant) and e.slice.value == "message"
+            and isinstance(e.value, ast.Subscript) and isinstance(e.value.value, ast.Name)
+            and e.value.value.id == "centralised_messages" and isinstance(e.value.slice, ast.Name))
+
+
+def _reaching(fn: ast.AST, e: ast.AST) -> ast.AST:
+    """Follow a local name to its definition when it has exactly one assignment in the function."""
+    seen = 0
+    while isinstance(e, ast.Name) and seen < 5:
+        defs = [n.value for n in ast.walk(fn) if isinstance(n, ast.Assign)
+                and any(isinstance(t, ast.Name) and t.id == e.id for t in n.targets)]
+        defs += [n for n in ast.walk(fn) if isinstance(n, ast.AugAssign) and isinstance(n.target, ast.Name)
+                 and n.target.id == e.id]
+        if len(defs) != 1 or isinstance(defs[0], ast.AugAssign):
+            return e
+        e = defs[0]
+        seen += 1
+    return e
+
+
 def site_name(m, f, call) -> str:
     return f.qualname if f is not None else f"{m.name}.<module>"
 
@@ -231,7 +253,7 @@ def run(rep: Report, tier: str) -> None:
             elif isinstance(node, ast.Call) and isinstance(node.func, ast.Attribute) and node.func.attr in ("format", "format_map"):
                 nformat += 1
                 rep.instance("R26.4", f"{k}.__init__/format/{src(node.func.value)}")
-                ok = (src(node.func.value) == "centralised_messages[code]['message']" and not node.args
+                ok = (_is_catalogue_message(_reaching(init.node, node.func.value)) and not node.args
                       and len(node.keywords) == 1 and node.keywords[0].arg is None
                       and isinstance(node.keywords[0].value, ast.Name) and node.keywords[0].value.id == "kwargs")
                 if not ok:
